@@ -65,9 +65,9 @@ pub fn arb_cfg(o: &HistOpts) -> BoxedStrategy<ClientCfg> {
         (Just(500_000u64).boxed(), Just(1_000u64).boxed(), Just(16u32).boxed(), Just(7u32).boxed())
     };
     let max_tx = if o.small_limits {
-        prop_oneof![4 => 0usize..=4, 1 => Just(10usize)].boxed()
+        prop_oneof![8 => 0usize..=4, 2 => Just(10usize), 1 => 11usize..=14].boxed()
     } else {
-        prop_oneof![3 => Just(10usize), 1 => 1usize..=4].boxed()
+        prop_oneof![6 => Just(10usize), 2 => 1usize..=4, 1 => 11usize..=40].boxed()
     };
     let fp = match o.fingerprint {
         Some(b) => Just(b).boxed(),
@@ -77,6 +77,8 @@ pub fn arb_cfg(o: &HistOpts) -> BoxedStrategy<ClientCfg> {
         4 => Just(("user".to_string(), "secret-pass".to_string())),
         2 => (arb_keytext(24), arb_keytext(24)),
         1 => (arb_keytext(24), arb_password()),
+        // blanks at the ends belong to the password (OpaqueString keeps ASCII spaces)
+        1 => proptest::sample::select(vec![" secret", "secret ", "  two  ", " "]).prop_map(|p| ("user".to_string(), p.to_string())),
     ];
     (reliable, rto, gran, rm, rc, mech, fp, max_tx, cred)
         .prop_map(|(reliable, rto_us, gran_us, rm, rc, mech, fingerprint, max_tx, (user, password))| ClientCfg {
